@@ -200,6 +200,7 @@ type pending struct {
 	id, test string
 	c        any
 	since    time.Time
+	limit    time.Duration
 }
 
 var (
@@ -207,24 +208,29 @@ var (
 	watchOnce sync.Once
 )
 
-// HangLimit is the wall-clock time after which a single call of the code under
-// test is declared hung. Expected cost is milliseconds; the margin is four
-// orders of magnitude so that a loaded machine cannot raise the alarm.
-var HangLimit = 20 * time.Second
+// HangLimit is the wall-clock time after which a single generated case is
+// declared hung. Expected cost of a session case is milliseconds; the margin is
+// four orders of magnitude so that a loaded machine cannot raise the alarm.
+// Packages whose cases legitimately take long (whole damage neighbourhoods in
+// codec, generator + compiler runs in gencheck) raise it in an init().
+var HangLimit = 60 * time.Second
 
 // Watch registers the case about to be executed with the hang watchdog and
 // returns the function to call when it is done. If a case stays pending for
 // HangLimit the watchdog writes it as current-case.json and exits the process.
-func Watch(id, test string, c any) func() {
+func Watch(id, test string, c any) func() { return WatchFor(HangLimit, id, test, c) }
+
+// WatchFor is Watch with a limit of its own (a single parser call, say).
+func WatchFor(limit time.Duration, id, test string, c any) func() {
 	watchOnce.Do(func() {
 		go func() {
 			for {
 				time.Sleep(time.Second)
 				p := curCase.Load()
-				if p != nil && time.Since(p.since) > HangLimit {
+				if p != nil && time.Since(p.since) > p.limit {
 					if dir := os.Getenv("VERIF_FAIL"); dir != "" {
 						b, _ := json.MarshalIndent(failDoc{Property: p.id, Test: p.test, Case: p.c,
-							Violations: []Violation{V("hang", "a single call did not return within %v", HangLimit)}}, "", " ")
+							Violations: []Violation{V("hang", "a single case did not finish within %v", p.limit)}}, "", " ")
 						_ = os.WriteFile(dir+"/current-case.json", b, 0o644)
 					}
 					buf := make([]byte, 4<<20)
@@ -239,14 +245,15 @@ func Watch(id, test string, c any) func() {
 							fmt.Println(g)
 						}
 					}
-					fmt.Printf("HANG: property %s: a call did not return within %v\n", p.id, HangLimit)
+					fmt.Printf("HANG: property %s: a call did not return within %v\n", p.id, p.limit)
 					os.Exit(3)
 				}
 			}
 		}()
 	})
-	curCase.Store(&pending{id, test, c, time.Now()})
-	return func() { curCase.Store(nil) }
+	prev := curCase.Load() // an enclosing watch (the whole case) resumes when this one is done
+	curCase.Store(&pending{id, test, c, time.Now(), limit})
+	return func() { curCase.Store(prev) }
 }
 
 // PreRecord writes the case as current-case.json before it is executed, for
